@@ -102,6 +102,7 @@ RANDOM_OPTS = {
     'script_ops': ['ret', 'fire', 'addh', 'rmh', 'stop'], 'flags': [0], 'maxfire': 1,
     'targets': [None, None, 'a', 'b', '*', '#'], 'p_dynamic': 0.25, 'p_removable': 0.25, 'p_script': 0.5,
     'hist_ops': ['fire', 'fire', 'flush', 'flush', 'addh', 'rmh', 'reg', 'unreg'], 'histlen': (3, 9), 'ext_names': 3,
+    'p_preset': 0.25, 'p_multichannel': 0.2,
 }
 
 
